@@ -48,8 +48,8 @@ MODEL_MUT = {"rewrite": ("rewrite", 1), "append": ("append", 1), "rename": ("ren
 CONTENT_CHANGING = {"rewrite", "append", "rename", "remove"}
 
 
-def setup(ctx, inputs):
-    d = C.mk_sandbox(ctx, "c20")
+def setup(ctx, inputs, tag="c20"):
+    d = C.mk_sandbox(ctx, tag)
     for n in ("main.o", "foo.o", "bar.o"):
         shutil.copy(os.path.join(inputs, n), os.path.join(d, n))
     rc, out = runner.sh(["ar", "rc", "libfoo.a", "foo.o"], cwd=d)
@@ -103,10 +103,10 @@ def classify(rc, err):
     return "link-error"
 
 
-def one(ctx, inputs, point, mut, kind, link_ok):
-    d = setup(ctx, inputs)
+def one(ctx, inputs, point, mut, kind, link_ok, slot=0):
+    d = setup(ctx, inputs, f"c20-{slot}")
     time.sleep(0.03)   # leave the clock tick in which the inputs were written
-    gate = os.path.join(ctx.scratch, "gate")
+    gate = os.path.join(ctx.scratch, f"gate-{slot}")
     for p in (gate, gate + ".reached"):
         if os.path.exists(p):
             os.unlink(p)
@@ -165,12 +165,28 @@ def run(ctx):
                                                ("after-inputs-loaded", "remove", "archive"), ("after-layout", "restore", "object"),
                                                ("after-symbol-resolution", "none", "object"), ("after-layout", "rename-same-mtime", "script")]]
     if ctx.quick:
-        # quick: full product for two points, the other two points take every second (mutation, kind) pair
-        cases = [c for c in cases if c[3] == 0 or c[0] in ("after-inputs-loaded", "after-write")
+        # quick: full product at the first point; the other points take every second (mutation, kind) pair, so that every
+        # (point, mutation) and (point, kind) combination still occurs
+        cases = [c for c in cases if c[3] == 0 or c[0] in ("after-inputs-loaded",)
                  or (MUTS.index(c[1]) + KINDS.index(c[2]) + POINTS.index(c[0])) % 2 == 0]
     pairs = []
-    for pt, m, k, ok in cases:
-        reached, rc, err, args, env = one(ctx, inputs, pt, m, k, ok)
+    # the scenarios are independent (own sandbox + gate per slot): run 4 at a time, evaluate in enumeration order
+    from concurrent.futures import ThreadPoolExecutor
+    import queue
+    slots = queue.Queue()
+    for i in range(4):
+        slots.put(i)
+
+    def job(c):
+        slot = slots.get()
+        try:
+            return one(ctx, inputs, c[0], c[1], c[2], c[3], slot)
+        finally:
+            slots.put(slot)
+
+    with ThreadPoolExecutor(max_workers=4) as ex:
+        results = list(ex.map(job, cases))
+    for (pt, m, k, ok), (reached, rc, err, args, env) in zip(cases, results):
         obs = classify(rc, err)
         ctx.count("point", pt)
         ctx.count("mutation", m)
